@@ -70,6 +70,8 @@ ProgsT == {<<x>> : x \in Invocations(2)} \cup {<<B, x>> : x \in Invocations(2)}
 
 D2 == << <<2 * Unit, 12 * Unit, 13 * Unit, 14 * Unit>>, <<21 * Unit, 22 * Unit, 23 * Unit, 24 * Unit>> >>
 NoGlobals == <<>>
+\* the context supplies one global of its own (ellps=GRS80); with c standing for ellps and 1 for GRS80:
+GlobC1 == ("c" :> 1)
 Styles1 == {"suffix"}
 Styles3 == {"suffix", "prefix", "eqtrue"}
 =============================================================================
